@@ -140,6 +140,7 @@ func TestC14Release(t *testing.T) {
 		closeChildFirst := rapid.Bool().Draw(rt, "closeChildFirst")
 		// in some cycles a resolution is still inside a constructor when the scope is closed: what it
 		// finishes constructing afterwards belongs to nobody and must be released like everything else
+		siblings := rapid.SampledFrom([]int{1, 1, 2, 3}).Draw(rt, "siblings")
 		lateEvery := rapid.SampledFrom([]int{0, 0, 1, 3}).Draw(rt, "lateEvery")
 		late := 0
 
@@ -188,6 +189,22 @@ func TestC14Release(t *testing.T) {
 				w.SetFaultNext(vr, flt)
 			}
 			func() {
+				// siblings that are open at the same time and closed in the order they were created
+				// (not last-in-first-out): the parent's bookkeeping has to cope with holes
+				var olderSiblings []godi.Scope
+				for k := 1; k < siblings; k++ {
+					if sib, err := parent.CreateScope(mkctx(ctxKinds[(i+k)%len(ctxKinds)])); err == nil {
+						scopeHandles = append(scopeHandles, godi.VerifWeakScope(sib))
+						olderSiblings = append(olderSiblings, sib)
+					} else {
+						failedCreates++
+					}
+				}
+				defer func() {
+					for _, sib := range olderSiblings {
+						_ = sib.Close()
+					}
+				}()
 				s, err := parent.CreateScope(mkctx(ctxKinds[i%len(ctxKinds)]))
 				if err != nil {
 					failedCreates++
@@ -273,6 +290,9 @@ func TestC14Release(t *testing.T) {
 		}
 		if late > 0 {
 			labels = append(labels, "constructions-overlapping-close")
+		}
+		if siblings > 1 {
+			labels = append(labels, "overlapping-siblings")
 		}
 		canon := fmt.Sprintf("%s || N=%d nest=%d ctx=%v gets=%v faultEvery=%d parentScope=%v childFirst=%v", cfg, N, nest, ctxKinds, getIDs, faultEvery, useParentScope, closeChildFirst)
 		col.Case(N >= 10 || nest > 0 || failedCreates > 0, canon, canon, labels...)
